@@ -16,5 +16,5 @@ else
 fi
 cd lean
 mods=$(ls LexprModel/Props/*.lean | sed 's#/#.#g; s#\.lean$##')
-lake build $mods LexprModel.Proofs.ConsOpsAll LexprModel.TablesCheck driver
+lake build $mods LexprModel.Proofs.ConsOpsAll LexprModel.Proofs.DatumDepth LexprModel.TablesCheck driver
 echo "setup ok"
